@@ -80,7 +80,7 @@ PROPS = {
         },
         "explanation": "Engine K (Kani/CBMC, bit-precise): the real get_lower_index on the f32 / f64 / i32 / i64 monomorphs with array contents and query fully symbolic under exactly the stated preconditions; asserts index <= len-2, "
                        "bracketing inside the range, clamps at and beyond both ends, and (through CBMC's own checks) no panic, no out-of-bounds index, no failed cast. Engine S (mode O): for axis lengths up to 10 (14) the clamps, "
-                       "EVERY possible initial guess 0..=len-2 and the binary search are explored and z3 proves per path that the returned index brackets the query for all IEEE axis values and queries.",
+                       "EVERY possible initial guess 0..=len-1 and the binary search are explored and z3 proves per path that the returned index brackets the query for all IEEE axis values and queries.",
         "trusted_base": O_TRUST + K_TRUST,
         "technique": "Kani/CBMC bit-precise proof harnesses over kani::any() arrays and queries (float arithmetic of the guess included) + symbolic execution of the search with z3 QF_FP for longer axes",
         "level_text": "Bounded model checking: engine K decides the complete routine (guess arithmetic, cast, search) for all bit patterns at small lengths; engine S decides the search for every guess position and every order position of the query up to length 10 / 14. Right level: the floats adjacent to each knot, +-inf, +-MAX and -0 are ordinary values of the symbolic query.",
